@@ -302,6 +302,9 @@ func transformSpec(s string) string {
 			inner := s[i+1 : j]
 			sb.WriteByte(c)
 			parts := splitTopLevel(inner, ',')
+			if ti := strings.TrimSpace(inner); strings.HasPrefix(ti, "forall ") || strings.HasPrefix(ti, "exists ") {
+				parts = []string{inner} // a parenthesised quantifier: its binder list contains commas
+			}
 			for k, p := range parts {
 				if k > 0 {
 					sb.WriteString(",")
